@@ -16,6 +16,21 @@ CHECKS = {
         text="Generated-input differential test: serde.encode bytes == reference canonical encoder and serde.decode(reference bytes) == value, plus the 26 project vectors through the Python codec. A symmetric encode/decode error is visible because the reference shares no code with fcp.serde.",
         note="Trusted: vlib/refcodec.py (self-tested against tests/standardized/fcp_tests.json at every run).",
         ref="4/C02"),
+    "C04": dict(
+        technique="property-based testing over generated operation histories against a reference layout fold",
+        text="Generated-input search over fixed-size schema shapes and histories of generate()/new-encoder operations on one PackedEncoder; every returned layout is compared with an independent reference fold, with the tiling invariants, with a fresh encoder (history independence) and with the signal-block option rules.",
+        note="Trusted: vlib/reflayout.py. Unrolled-array elements' options are unconstrained (statement silent). unroll_arrays=False with arrays of structs is outside the domain.",
+        ref="4/C04"),
+    "C12": dict(
+        technique="property-based round-trip plus differential comparison with an independently built reflection record",
+        text="Generated full schemas (every node kind) through the real front end; reflection() is compared key-by-key with a record built from the description alone and round-tripped through serde with the built-in reflection schema.",
+        note="Trusted: vlib/expected_tree.py. 'meta' positions only need to survive the round-trip.",
+        ref="4/C12"),
+    "C16": dict(
+        technique="fault injection by generated truncation/corruption of valid encodings, reference decoder as oracle, step-counting work bound",
+        text="Every strict prefix (all byte cuts up to 48 bytes, sampled beyond) and every length prefix corrupted to count+1/+1000/2^31/2^32-1 of generated valid encodings; serde.decode must raise whenever the reference decoder runs out of bits, within a deterministic step budget proportional to the input length.",
+        note="Trusted: reference decoder; work is counted by wrapping _Buffer.get_bit/_decode and fcp.serde's range from outside, never by wall-clock.",
+        ref="4/C16"),
 }
 
 PENDING = {}
